@@ -61,7 +61,7 @@ class Tr:
             if e.value is None:
                 return ".noneLit"
             if isinstance(e.value, bool) or not isinstance(e.value, int):
-                return ".unsupported " + q(src(e))
+                return "(.unsupported %s)" % q(src(e))
             return "(.int %d)" % e.value
         if isinstance(e, ast.Name):
             return "(.loc %s)" % q(e.id)
@@ -73,13 +73,13 @@ class Tr:
                 return self.expr(e.value)
             if isinstance(e.value, ast.Name) and e.value.id == "StlComparisonOperator" and e.attr in CMP:
                 return "(.cmpc .%s)" % CMP[e.attr]
-            return ".unsupported " + q(src(e))
+            return "(.unsupported %s)" % q(src(e))
         if isinstance(e, ast.UnaryOp):
             if isinstance(e.op, ast.USub):
                 return "(.un .neg %s)" % self.expr(e.operand)
             if isinstance(e.op, ast.Not):
                 return "(.un .not %s)" % self.expr(e.operand)
-            return ".unsupported " + q(src(e))
+            return "(.unsupported %s)" % q(src(e))
         if isinstance(e, ast.BinOp) and type(e.op) in BINOPS:
             return "(.bin .%s %s %s)" % (BINOPS[type(e.op)], self.expr(e.left), self.expr(e.right))
         if isinstance(e, ast.Compare) and len(e.ops) == 1 and type(e.ops[0]) in CMPOPS:
@@ -111,7 +111,7 @@ class Tr:
                 return "(.bin .pow %s %s)" % (self.expr(a[0]), self.expr(a[1]))
             if f == "collections.deque" and not a and len(e.keywords) == 1 and e.keywords[0].arg == "maxlen":
                 return "(.newDeque %s)" % self.expr(e.keywords[0].value)
-        return ".unsupported " + q(src(e))
+        return "(.unsupported %s)" % q(src(e))
 
     def list_expr(self, e):
         """Expression forms over lists of floats (offline visitor); None if `e` is not one of them."""
@@ -131,7 +131,7 @@ class Tr:
         if isinstance(e, ast.Subscript) and isinstance(e.slice, ast.Slice):
             sl = e.slice
             if sl.step is not None:
-                return ".unsupported " + q(src(e))
+                return "(.unsupported %s)" % q(src(e))
             lo = "(.int 0)" if sl.lower is None else self.expr(sl.lower)
             hi = ".noneLit" if sl.upper is None else self.expr(sl.upper)
             return "(.slice %s %s %s)" % (self.expr(e.value), lo, hi)
@@ -200,7 +200,7 @@ class Tr:
                 return "(.setLoc %s %s)" % (q(t.id), self.expr(s.value))
             if isinstance(t, ast.Attribute) and isinstance(t.value, ast.Name) and t.value.id == "self":
                 return "(.setAttr %s %s)" % (q(t.attr), self.expr(s.value))
-            return ".unsupported " + q(src(s))
+            return "(.unsupported %s)" % q(src(s))
         if isinstance(s, ast.Expr) and isinstance(s.value, ast.Call):
             c = s.value
             f = c.func
@@ -211,7 +211,7 @@ class Tr:
                 m = self.methods[f.attr]
                 if len(m.args.args) == 1 and not any(isinstance(x, ast.Return) for x in ast.walk(m)):
                     return self.block(m.body, depth + 1)                      # inlined
-                return ".unsupported " + q(src(s))
+                return "(.unsupported %s)" % q(src(s))
             if isinstance(f, ast.Attribute) and f.attr == "append" and len(c.args) == 1 and not c.keywords:
                 tgt = f.value
                 if isinstance(tgt, ast.Attribute) and isinstance(tgt.value, ast.Name) and tgt.value.id == "self":
@@ -220,7 +220,7 @@ class Tr:
                         and tgt.value.value.id == "self" and isinstance(tgt.slice, ast.Constant) and isinstance(tgt.slice.value, int) \
                         and tgt.slice.value >= 0:
                     return "(.append %s (some %d) %s)" % (q(tgt.value.attr), tgt.slice.value, self.expr(c.args[0]))
-            return ".unsupported " + q(src(s))
+            return "(.unsupported %s)" % q(src(s))
         if isinstance(s, ast.For) and not s.orelse and isinstance(s.target, ast.Name) and isinstance(s.iter, ast.Call) \
                 and isinstance(s.iter.func, ast.Name) and s.iter.func.id == "range" and 1 <= len(s.iter.args) <= 2 and not s.iter.keywords:
             a = s.iter.args
@@ -233,7 +233,7 @@ class Tr:
             return "(.ite %s %s %s)" % (test, self.block(s.body, depth), self.block(s.orelse, depth))
         if isinstance(s, ast.Raise) and isinstance(s.exc, ast.Call) and isinstance(s.exc.func, ast.Name):
             return "(.raise .rtamt)" if s.exc.func.id == "RTAMTException" else "(.raise .other)"
-        return ".unsupported " + q(src(s))
+        return "(.unsupported %s)" % q(src(s))
 
     def method(self, name):
         m = self.methods.get(name)
@@ -249,7 +249,7 @@ class Tr:
             r = body.pop()
             ret = "none" if r.value is None else "(some %s)" % self.expr(r.value)
         if any(isinstance(x, ast.Return) for st in body for x in ast.walk(st)):
-            btxt = ".unsupported " + q("return inside " + name)
+            btxt = "(.unsupported %s)" % q("return inside " + name)
         else:
             btxt = self.block(body, 0)
         return "{ params := [%s], body := %s, ret := %s }" % (", ".join(q(p) for p in params), btxt, ret)
@@ -317,7 +317,7 @@ def offline_method(tr, m):
         r = body.pop()
         ret = "none" if r.value is None else "(some %s)" % tr.expr(r.value)
     if any(isinstance(x, ast.Return) for st in body for x in ast.walk(st)):
-        btxt = ".unsupported " + q("return inside " + m.name)
+        btxt = "(.unsupported %s)" % q("return inside " + m.name)
     else:
         btxt = tr.block(body, 0)
     return "{ name := %s, kids := [%s], interval := %s, body := %s, ret := %s }" % (
